@@ -23,6 +23,8 @@ enum Vis {
     PubInSuper,
     /// `pub(in self::super)`: and one more
     PubInSelfSuper,
+    /// `pub(in super::super::b)`: up two modules and down again by name - the same scope (`a::b`) once more
+    PubInSuperSuperB,
 }
 
 impl Vis {
@@ -37,6 +39,7 @@ impl Vis {
             Vis::PubInSelf => "pub(in self) ".into(),
             Vis::PubInSuper => "pub(in super) ".into(),
             Vis::PubInSelfSuper => "pub(in self::super) ".into(),
+            Vis::PubInSuperSuperB => "pub(in super::super::b) ".into(),
         }
     }
 
@@ -55,7 +58,7 @@ fn accessible(v: Vis, site: &str) -> bool {
     match v {
         Vis::Pub | Vis::PubCrate => true,
         Vis::Private | Vis::PubSelf | Vis::PubInSelf => matches!(site, "same" | "child"),
-        Vis::PubSuper | Vis::PubInSuper | Vis::PubInSelfSuper => matches!(site, "same" | "child" | "sibling"), // within a::b
+        Vis::PubSuper | Vis::PubInSuper | Vis::PubInSelfSuper | Vis::PubInSuperSuperB => matches!(site, "same" | "child" | "sibling"), // within a::b
         Vis::PubInA => matches!(site, "same" | "child" | "sibling" | "uncle"), // within a
     }
 }
@@ -126,7 +129,7 @@ fn build(case: &str, mode: &str, v: Vis, item_vis: &str, site: &str) -> Probe {
 
 fn all_probes() -> Vec<(String, String, Vis, String, String)> {
     let mut out = vec![];
-    for v in [Vis::Private, Vis::Pub, Vis::PubCrate, Vis::PubSuper, Vis::PubInA, Vis::PubSelf, Vis::PubInSelf, Vis::PubInSuper, Vis::PubInSelfSuper] {
+    for v in [Vis::Private, Vis::Pub, Vis::PubCrate, Vis::PubSuper, Vis::PubInA, Vis::PubSelf, Vis::PubInSelf, Vis::PubInSuper, Vis::PubInSelfSuper, Vis::PubInSuperSuperB] {
         for iv in ["", "pub ", "pub(crate) "] {
             for s in SITES {
                 out.push(("fn".to_string(), String::new(), v, iv.to_string(), s.to_string()));
@@ -134,14 +137,14 @@ fn all_probes() -> Vec<(String, String, Vis, String, String)> {
         }
     }
     // module mode: a relative visibility is relative to where the attribute is written (the parent of the module)
-    for v in [Vis::Private, Vis::Pub, Vis::PubCrate, Vis::PubInA, Vis::PubSuper, Vis::PubSelf, Vis::PubInSuper, Vis::PubInSelfSuper] {
+    for v in [Vis::Private, Vis::Pub, Vis::PubCrate, Vis::PubInA, Vis::PubSuper, Vis::PubSelf, Vis::PubInSuper, Vis::PubInSelfSuper, Vis::PubInSuperSuperB] {
         for iv in ["", "pub "] {
             for s in SITES {
                 out.push(("mod".to_string(), String::new(), v, iv.to_string(), s.to_string()));
             }
         }
     }
-    for v in [Vis::Private, Vis::Pub, Vis::PubCrate, Vis::PubInA, Vis::PubSuper, Vis::PubInSelf, Vis::PubInSelfSuper] {
+    for v in [Vis::Private, Vis::Pub, Vis::PubCrate, Vis::PubInA, Vis::PubSuper, Vis::PubInSelf, Vis::PubInSelfSuper, Vis::PubInSuperSuperB] {
         for iv in ["", "pub "] {
             for s in SITES {
                 out.push(("mod_path".to_string(), String::new(), v, iv.to_string(), s.to_string()));
